@@ -698,10 +698,122 @@ type timerCase struct {
 	Read     int    `json:"read_timeout_s"`
 	// Stage: "" = the session is streaming (after PLAY / RECORD); "announced" (record only), "setup" (after the
 	// SETUP, before PLAY / RECORD), "paused" (PLAY / RECORD, then PAUSE): the peer is live or silent in that state
-	Stage string `json:"stage,omitempty"`
+	Stage string `json:"stage,omitempty"` // also "paused-from-other-connection"
+}
+
+// runReconnect: a publisher over UDP dies (its connection closes; the session lingers until its timeout, as it
+// must over UDP) and a new publisher from the same address records with the same client ports. The new
+// session's peer follows the protocol (a packet every 500 ms): it must never be expired - in particular not
+// when the old session times out and cleans up.
+func runReconnect(tc timerCase) (f *fail) {
+	defer func() {
+		if r := recover(); r != nil {
+			f = &fail{"timer/harness-panic", fmt.Sprint(r)}
+		}
+	}()
+	env := sysx.NewEnv()
+	idle := time.Duration(tc.Idle) * time.Second
+	read := time.Duration(tc.Read) * time.Second
+	srv, app, err := env.StartServer(sysx.ServerOpts{Handlers: "all", UDP: true, Desc: sysx.DefaultDesc(1), Tweak: func(s *gortsplib.Server) {
+		s.IdleTimeout = idle
+		s.ReadTimeout = read
+	}})
+	if err != nil {
+		return &fail{"timer/harness/server-start", err.Error()}
+	}
+	defer func() {
+		if app.Stream != nil {
+			app.Stream.Close()
+		}
+		srv.Close()
+	}()
+	name := "timer/udp-record/publisher-reconnects-with-the-same-ports"
+	idx := func(n string) int {
+		for i, a := range alphabet {
+			if a.Name == n {
+				return i
+			}
+		}
+		panic(n)
+	}
+	publish := func() (*sysx.Peer, *fail) {
+		p, err := env.Dial(nil)
+		if err != nil {
+			return nil, &fail{"timer/harness/dial", err.Error()}
+		}
+		sess := ""
+		for _, st := range []string{"ANNOUNCE1", "SETUP0-record-udp", "RECORD"} {
+			r, err := p.Do(buildRequest(Step{Req: idx(st), Sess: "right"}, sess))
+			if err != nil || r.StatusCode != base.StatusOK {
+				p.Close()
+				return nil, &fail{"timer/harness/setup-failed", fmt.Sprintf("%s: %v %v (%+v)", st, r, err, tc)}
+			}
+			var sh headers.Session
+			if sh.Unmarshal(r.Header["Session"]) == nil {
+				sess = sh.Session
+			}
+		}
+		return p, nil
+	}
+	sessions := func() (out []*gortsplib.ServerSession) {
+		for _, e := range env.Log.Snapshot() {
+			if e.Kind == "session-open" {
+				out = append(out, e.Session)
+			}
+		}
+		return out
+	}
+	closedS := func(ss *gortsplib.ServerSession) bool {
+		for _, e := range env.Log.Snapshot() {
+			if e.Kind == "session-close" && e.Session == ss {
+				return true
+			}
+		}
+		return false
+	}
+	rtpSock, _ := env.Net.ListenPacket("udp", "127.0.0.1:35466")
+	defer rtpSock.Close()
+	seq := uint16(1)
+	send := func() {
+		pkt := &rtp.Packet{Header: rtp.Header{Version: 2, PayloadType: 96, SequenceNumber: seq, Timestamp: uint32(seq) * 3000, SSRC: 0x1234}, Payload: []byte{1, 2, 3, 4}}
+		seq++
+		b, _ := pkt.Marshal()
+		rtpSock.WriteTo(b, udpAddr(srv, true)) //nolint:errcheck
+		sysx.Settle()
+	}
+	p1, ff := publish()
+	if ff != nil {
+		return ff
+	}
+	send()
+	p1.Close() // the first publisher is gone; its session lingers
+	env.Advance(500 * time.Millisecond)
+	p2, ff := publish()
+	if ff != nil {
+		return ff
+	}
+	defer p2.Close()
+	ss := sessions()
+	if len(ss) != 2 {
+		return &fail{"timer/harness/setup-failed", fmt.Sprintf("%d sessions opened, 2 expected (%+v)", len(ss), tc)}
+	}
+	for el := time.Duration(0); el < 4*read+2*time.Second; el += 500 * time.Millisecond {
+		env.Advance(500 * time.Millisecond)
+		send()
+		if closedS(ss[1]) {
+			return &fail{name + "/live-peer-expired", fmt.Sprintf("the second publisher sends a packet every 500 ms; its session was closed %v after it started (ReadTimeout %v); the first publisher's session closed=%v (%+v)", el+500*time.Millisecond, read, closedS(ss[0]), tc)}
+		}
+	}
+	if !closedS(ss[0]) {
+		return &fail{name + "/silent-peer-not-closed", fmt.Sprintf("the first publisher's session is still open after %v (%+v)", 4*read+2*time.Second, tc)}
+	}
+	return nil
 }
 
 func runTimer(tc timerCase) (f *fail) {
+	if tc.Stage == "publisher-reconnects" {
+		return runReconnect(tc)
+	}
 	defer func() {
 		if r := recover(); r != nil {
 			f = &fail{"timer/harness-panic", fmt.Sprint(r)}
@@ -808,6 +920,26 @@ func runTimer(tc timerCase) (f *fail) {
 		if _, ff = must("PAUSE", sess); ff != nil {
 			return ff
 		}
+	}
+	if tc.Stage == "paused-from-other-connection" {
+		// a second connection from the same address pauses the session (allowed while the session is not
+		// streaming over an interleaved connection) and goes away; the first connection stays open
+		p2, err := env.Dial(nil)
+		if err != nil {
+			return &fail{"timer/harness/dial", err.Error()}
+		}
+		var idx int
+		for i, a := range alphabet {
+			if a.Name == "PAUSE" {
+				idx = i
+			}
+		}
+		r2, err := p2.Do(buildRequest(Step{Req: idx, Sess: "right"}, sess))
+		if err != nil || r2.StatusCode != base.StatusOK {
+			p2.Close()
+			return &fail{"timer/harness/setup-failed", fmt.Sprintf("PAUSE from a second connection: %v %v (%+v)", r2, err, tc)}
+		}
+		p2.Close()
 	}
 	var ssPtr *gortsplib.ServerSession
 	for _, e := range env.Log.Snapshot() {
@@ -1244,6 +1376,20 @@ func main() {
 					tjobs = append(tjobs, job{Kind: "timer", Timers: []timerCase{tc}})
 				}
 			}
+		}
+	}
+	// a publisher that reconnects with the same client ports while its old session lingers
+	for _, t := range [][2]int{{6, 2}, {10, 4}} {
+		tc := timerCase{Scenario: "udp-record", Peer: "live", Idle: t[0], Read: t[1], Stage: "publisher-reconnects"}
+		tcs = append(tcs, tc)
+		tjobs = append(tjobs, job{Kind: "timer", Timers: []timerCase{tc}})
+	}
+	// a UDP session that is paused through a second connection, then everybody is silent
+	for _, sc := range []string{"udp-play", "udp-record"} {
+		for _, t := range [][2]int{{6, 2}, {10, 10}} {
+			tc := timerCase{Scenario: sc, Peer: "silent", Idle: t[0], Read: t[1], Stage: "paused-from-other-connection"}
+			tcs = append(tcs, tc)
+			tjobs = append(tjobs, job{Kind: "timer", Timers: []timerCase{tc}})
 		}
 	}
 	for _, rq := range []string{"PAUSE", "GET_PARAMETER", "TEARDOWN", "PLAY", "SETUP1-play-tcp", "OPTIONS", "RECORD"} {
